@@ -1,6 +1,7 @@
 import TpmProofs.DecodeOk
 import TpmModel.Pump
 import TpmModel.Generated.Tables
+import TpmProofs.Props.MsgWF
 /-!
 # C01 — well-formed encodings decode to exactly the field-by-field event sequence
 
